@@ -326,7 +326,8 @@ def register(reg):
 
         def loop_invariant(self, c, ordinal):
             inv = [("permits_move_with_the_limit", ("C12",), self._delta(c))]
-            new = c.st.env.get("new_max_streams")
+            names = [n for n in c.interp.loop_test_names(ordinal) if isinstance(c.st.env.get(n), VInt)]
+            new = c.st.env.get(names[0]) if names else None
             if ordinal == 1 and isinstance(new, VInt):
                 inv.append(("limit_not_below_the_target_while_shrinking", ("C12",), new.t <= F(c, c.self, "H2._max_streams")))
             return inv
@@ -421,7 +422,8 @@ def register(reg):
                 # the dispatch: an event goes to the queue of the stream it carries, if registered
                 e = ev.data["value"]
                 tgt = ev.data["target"]
-                out.append(("events_queued_on_their_own_stream", ("C01", "C12", "C02"), tgt == "self._events[event.stream_id]" and isinstance(c.st.env.get("event"), VRef) and c.st.env["event"].t.eq(e.t)))
+                cur_ev = c.interp.loop_var(c.st, 0)
+                out.append(("events_queued_on_their_own_stream", ("C01", "C12", "C02"), tgt == "H2._events[]" and isinstance(cur_ev, VRef) and cur_ev.t.eq(e.t)))
                 lv = ev.data["before"]
                 loc = getattr(lv, "loc", None)
                 if loc is not None:
@@ -434,14 +436,14 @@ def register(reg):
 
         def on_field_write(self, c, obj, key, v, node):
             if key == "H2._connection_terminated":
-                e = c.st.env.get("event")
+                e = c.interp.loop_var(c.st, 0)
                 return [("goaway_event_is_remembered", ("C14",), isinstance(e, VRef) and c.eng.coerce(c.st, v, "ref:" + EV).t.eq(e.t))]
             return []
 
         def on_back_edge(self, c, ordinal):
             # one event processed per iteration: stream events of registered streams are queued,
             # unknown streams dropped, everything in frame order (the loop walks h2's list)
-            e = c.st.env.get("event")
+            e = c.interp.loop_var(c.st, 0)
             if not isinstance(e, VRef):
                 return [("walks_the_event_list", ("C12",), False)]
             t = typ(e.t)
@@ -554,8 +556,10 @@ def register(reg):
         def loop_invariant(self, c, ordinal):
             if ordinal == 1:
                 # header loop: `headers` is the non-pseudo headers of the processed prefix, in order
-                ev = c.st.env.get("event")
-                hs = c.st.env.get("headers")
+                evs_ = [e for e in c.trace if e.name == "H2.stream_event"]
+                ev = evs_[-1].data["result"] if evs_ else None
+                lists = [v for k, v in c.st.env.items() if isinstance(v, (VSeq, VList)) and not k.startswith("$")]
+                hs = lists[0] if len(lists) == 1 else None
                 i = c.st.env.get("$i1")
                 if isinstance(ev, VRef) and i is not None and isinstance(hs, (VSeq, VList)):
                     src = F(c, ev, "E2.headers")
@@ -566,11 +570,12 @@ def register(reg):
             return []
 
         def setup(self, c):
-            c.st.ghost["list_elem_kind"] = {"headers": "hdr"}
+            c.st.ghost["list_elem_kind"] = {"*": "hdr"}
 
         def after_loop_havoc(self, c, ordinal):
             if ordinal == 1:
-                ev = c.st.env.get("event")
+                evs_ = [e for e in c.trace if e.name == "H2.stream_event"]
+                ev = evs_[-1].data["result"] if evs_ else None
                 i = c.st.env.get("$i1")
                 if isinstance(ev, VRef) and i is not None:
                     src = F(c, ev, "E2.headers")
@@ -690,7 +695,8 @@ def register(reg):
             return z3.If(w < m, w, m)
 
         def loop_invariant(self, c, ordinal):
-            fl = c.st.env.get("flow")
+            names = [n for n in c.interp.loop_test_names(ordinal) if isinstance(c.st.env.get(n), VInt)]
+            fl = c.st.env.get(names[0]) if names else None
             if not isinstance(fl, VInt):
                 return [("flow_is_tracked", ("C13",), False)]
             return [("flow_is_min_of_current_window_and_frame_size", ("C13",), fl.t == self.flow_now(c))]
@@ -1035,7 +1041,6 @@ def register(reg):
             s = c.self
             req = c.args["request"]
             out = []
-            sidv = c.st.env.get("stream_id")
             if ev.name == "h2.get_next_available_stream_id":
                 acq = [e for e in c.trace if e.name == "sem.acquire"]
                 out.append(("stream_id_taken_only_after_acquiring_a_slot", ("C12",), len(acq) >= 1))
